@@ -22,7 +22,11 @@ RULE = ("Server cases: a real hio http Server (WSGI echo app) or BareServer (def
         "beyond doubt is answered or its connection closed within 10 service rounds. Client cases: a real hio http Client with 1-3 "
         "queued requests against a scripted raw peer that answers with byzantine responses (bad status lines, header lines without "
         "colon, bad chunk sizes, 100-continue prefixes, 3xx without or with malformed Location, huge lines, non-UTF-8 event streams, "
-        "truncation + FIN/RST, random bytes). Oracle: client.service() never raises; responses that are malformed beyond doubt appear "
+        "truncation + FIN/RST, random bytes); a third of the clients are set up to reconnect on their own (tymeout 0.5, advancing tyme) and "
+        "half of their responses are event streams, chunked or close-delimited, with hostile retry: / id: fields (hundreds of digits, negative, "
+        "underscores, non-ASCII digits, NUL, invalid and valid non-latin-1 UTF-8, very long) that are cut by FIN or RST, so that the client "
+        "comes back with what the stream told it. Absolute request URLs also come percent-encoded (%5B, %3A, %2F, %3F, %23). "
+        "Oracle: client.service() never raises; responses that are malformed beyond doubt appear "
         "in client.responses with errored True. Non-trivial: the byzantine bytes reached the parser in >= 2 reads while the sibling "
         "(or a following request) was in flight. Distinct: digest of the byzantine bytes + fragmentation + end-of-connection event.")
 COMPONENTS = dict(real=["hio.core.http.serving.Server/BareServer/Requestant/Responder/Steward", "hio.core.http.clienting.Client/Respondent/Requester",
@@ -30,7 +34,7 @@ COMPONENTS = dict(real=["hio.core.http.serving.Server/BareServer/Requestant/Resp
                   stub=["kernel sockets (FakeSocket)", "byzantine and sibling raw peers"], model=["hiosim/httpref.py (strict response parser)"])
 ASSUMPTIONS = ["must-be-errored is demanded only for responses that violate the HTTP/1.1 grammar beyond doubt (status line, header line "
                "without any colon, chunk-size that is not 1*HEXDIG)"]
-PROBES = ["server_wsgi", "server_bare", "client_mode", "truncated_fin", "truncated_rst", "sibling_completed", "errored_response_reported",
+PROBES = ["reconnecting_client", "server_wsgi", "server_bare", "client_mode", "truncated_fin", "truncated_rst", "sibling_completed", "errored_response_reported",
           "redirect_without_location", "chunk_size_mutation", "absolute_url_mutation", "long_line", "random_bytes", "valid_message_mutated"]
 BOUNDS = dict(quick=dict(byz_connections=3), thorough=dict(byz_connections=4))
 TIERS = dict(quick=dict(cases=40000, wall=60.0), thorough=dict(cases=1200000, wall=420.0))
@@ -77,7 +81,8 @@ def byz_request(tape):
         return b"POST /c HTTP/1.1\r\nHost: x\r\nTransfer-Encoding: chunked\r\n\r\n3\r\nabc" + end + b"0\r\n\r\n", "chunk-end"
     if k == 3:
         url = tape.pick("url", [b"http://h:99999/", b"http://h:abc/", b"http://[::1/", b"//[/", b"http://h:-1/", b"http://h:/x",
-                                b"https://[v1.x]/", b"http://h:65536/y", b"http://h:8\xb2/", b"http://h:\xa080/", b"http://h\x85:80/"])
+                                b"https://[v1.x]/", b"http://h:65536/y", b"http://h:8\xb2/", b"http://h:\xa080/", b"http://h\x85:80/",
+                                b"http://%5Bab/x", b"//%5B/", b"http://h%3A99999/", b"http://%5B::1/%5D", b"/p%3Fq%23f", b"http://h:80%2Fx/"])
         return b"GET " + url + b" HTTP/1.1\r\nHost: h\r\n\r\n", "absolute-url"
     if k == 4:
         which = tape.draw("long_where", 3)
@@ -345,11 +350,27 @@ def sib_responses(sib):
     return resp, err
 
 
+SSE_HOSTILE = [b"retry: " + b"9" * 400 + b"\n\n", b"id: \xe2\x98\x83\ndata: x\n\n", b"retry: -5\ndata: y\n\n", b"id: a\x00b\ndata: z\n\n",
+               b"id: \xff\xfe\nretry: 1_0\ndata: w\n\n", b"retry: \xd9\xa1\xd9\xa2\n\n", b"id: 7\nretry: 250\ndata: ok\n\n", b": just a comment\n\n",
+               b"id: " + b"i" * 300 + b"\ndata: long id\n\n", b"retry: 1e3\nid:\ndata: empty id\n\n"]
+
+
 def client_case(tape, tier, res):
     nreq = 1 + tape.draw("nreq", 3)
     plan = []
     port2 = 56099
+    # a client set up to reconnect on its own (the way event stream consumers are): after a stream is cut it comes back when
+    # its retry period is over, using what the stream told it (retry:, id:) - hostile values included
+    reconnecting = tape.flag("reconnecting_client", 1, 3)
     for _ in range(nreq):
+        if reconnecting and tape.flag("sse_stream", 1, 2):
+            evs = b"".join(SSE_HOSTILE[tape.draw("sse_ev", len(SSE_HOSTILE))] for _ in range(1 + tape.draw("n_sse_ev", 3)))
+            if tape.flag("sse_chunked", 1, 2):
+                data = b"HTTP/1.1 200 OK\r\nContent-Type: text/event-stream\r\nTransfer-Encoding: chunked\r\n\r\n%x\r\n" % len(evs) + evs + b"\r\n"
+            else:
+                data = b"HTTP/1.1 200 OK\r\nContent-Type: text/event-stream\r\n\r\n" + evs
+            plan.append(dict(frags=fragments(tape, data), tag="sse-stream-cut", end=tape.pick("sse_end", ["fin", "fin", "rst"]), must=False))
+            continue
         data, tag, must = byz_response(tape, port2)
         end = tape.pick("end", ["none", "none", "fin", "rst"])
         if end != "none" and tape.flag("truncate", 1, 3) and len(data) > 1:
@@ -357,18 +378,22 @@ def client_case(tape, tier, res):
             tag += "+trunc"
             must = False
         plan.append(dict(frags=fragments(tape, data), tag=tag, end=end, must=must))
-    cfg = dict(mode="client", plan=[dict(tag=p["tag"], end=p["end"], must=p["must"], frags=[f[:80].decode("latin1") for f in p["frags"]][:8]) for p in plan])
+    cfg = dict(mode="client", reconnecting=reconnecting, plan=[dict(tag=p["tag"], end=p["end"], must=p["must"], frags=[f[:80].decode("latin1") for f in p["frags"]][:8]) for p in plan])
     raised = []
     with netlab.Lab(tape, res, wirelog=False, rates=dict(short=tape.pick("r_short", [0, 4, 10]))) as lab:
         net = lab.net
         srv = rawpeer.RawServer(net, lab.port)
         net.current_owner = "client0"
-        client = hclienting.Client(hostname="127.0.0.1", port=lab.port, tymth=lambda: 0.0)
+        tyme = [0.0]
+        ckwa = dict(reconnectable=True, tymeout=0.5) if reconnecting else {}
+        client = hclienting.Client(hostname="127.0.0.1", port=lab.port, tymth=lambda: tyme[0], **ckwa)
         client.reopen()
         net.current_owner = None
         for i in range(nreq):
             client.request(method="GET", path="/r%d" % i)
         served = [0]
+        if reconnecting:
+            res.probes["reconnecting_client"] += 1
 
         def behave(c):
             st = c["state"]
@@ -399,6 +424,8 @@ def client_case(tape, tier, res):
             if steps == maxsteps:
                 draining[0] = True     # bounded liveness: from here on the peer sends whatever it still holds at once
             res.steps += 1
+            if reconnecting:
+                tyme[0] += 0.125
             net.current_owner = "client0"
             try:
                 client.service()
